@@ -16,6 +16,7 @@ CONSTANTS
   CloseConn = TRUE
   HasFallback = TRUE
   AllowClose = TRUE
+  OneAtATime = FALSE
   SafePool = TRUE
   Strict = FALSE
 VIEW View
